@@ -79,6 +79,8 @@ inline void parse_args(int argc, char** argv) {
 #ifdef VK_SAN
     o.san = true;
     o.scale *= 0.1;
+#elif defined(VK_SLOW)
+    o.scale *= 0.1;          // unoptimised builds run the same cells on a tenth of the random / lattice workload
 #endif
 }
 
